@@ -18,8 +18,8 @@ META = {
             'plus the full product of a two-value reduction of every dimension (independence check). Every single strftime conversion, all ordered pairs of 12 of them, literals, empty and over-long formats. '
             'All 35 applicable data sources are read in every state and compared with the oracle.'
             " Also: variants of /etc/passwd and /etc/group (and an empty /etc) bound over the real files, 1 500 cgroup texts x 19 selectors, PID namespaces with and without their own /proc (root process with a chosen name), login names around 254 bytes, an exec'ed image in secure-execution mode.",
-    'note': 'Where the statement leaves a placeholder text open (no passwd entry, no terminal, unreadable cwd) the oracle only requires "not a wrong value". domain/ipaddr/systemd_unit_name depend on files the sandbox '
-            'cannot vary (/etc/hosts, utmp, systemd cgroup) and are observed in the one state that exists. Trusted: the kernel interfaces used as the second route.',
+    'note': 'Where the statement leaves a placeholder text open (no terminal, removed cwd) the oracle only requires "not a wrong value"; for ids without an entry it demands the documented placeholder (user-UID / (undefined)) '
+            'unless the name service as a whole knows a name. domain/ipaddr/systemd_unit_name are observed in the one state the sandbox offers. Trusted: the kernel interfaces used as the second route.',
 }
 
 NATIVE = os.path.join(VERIF, 'native')
